@@ -177,7 +177,8 @@ def h_recount(locus, delta, k, grouped, anchored=False, tails=False):
                 if kind == "exon":
                     must = AND(NOT(any_match), inner[0] <= f[0], f[1] <= inner[1]) if k > 1 else False
                     # "an exon lying between the read's first and last exon"
-                    may = OR(AND(blocks[0][1] < f[0], f[1] < blocks[-1][0]), any_match)   # non-closest candidates are marked absent
+                    # closed bounds: with delta = 0 an exon that only touches the border base of a terminal read exon still counts as lying between
+                    may = OR(AND(blocks[0][1] <= f[0], f[1] <= blocks[-1][0]), any_match)   # non-closest candidates are marked absent
                 else:
                     # "an intron overlapped by the read's span": demanded from the code's own threshold (minimal_intron_absence_overlap) on
                     long_overlap = AND(span[1] - f[0] + 1 >= MIN_ABSENCE_OVERLAP, f[1] - span[0] + 1 >= MIN_ABSENCE_OVERLAP,
